@@ -110,7 +110,9 @@ def run(ctx: Ctx) -> None:
                     if d.cond is None:
                         continue
                     parts = d.cond.values if isinstance(d.cond, ast.BoolOp) and isinstance(d.cond.op, ast.And) else [d.cond]
-                    texts += [_expand_locals(cfg, d, p_) for p_ in parts]
+                    for p_ in parts:
+                        hc = _bool_helper_condition(pm, p_)
+                        texts.append(hc if hc is not None else _expand_locals(cfg, d, p_))
                 joined = " && ".join(texts)
                 need = {"a Type node": ("isinstance(", ", Type)"), "one name segment": (".segments) == 1",), "named 'void'": ("== 'void'",), "a single parameter": ("len(", ") == 1")}
                 missing = [k for k, frags in need.items() if not all(f in joined for f in frags)]
@@ -384,3 +386,62 @@ def _expand_locals(cfg, at, e: ast.AST, depth: int = 0) -> str:
                 return ast.parse(_expand_locals(cfg, dn, _copy.deepcopy(st.value), depth + 1), mode="eval").body
             return n
     return norm(T().visit(_copy.deepcopy(e)))
+
+
+def _canon_bool(e: ast.AST) -> ast.AST:
+    """push negations inwards: not (a != b) -> a == b, not not x -> x, De Morgan"""
+    inv = {ast.Eq: ast.NotEq, ast.NotEq: ast.Eq, ast.Is: ast.IsNot, ast.IsNot: ast.Is, ast.In: ast.NotIn, ast.NotIn: ast.In, ast.Lt: ast.GtE, ast.GtE: ast.Lt, ast.Gt: ast.LtE, ast.LtE: ast.Gt}
+    if isinstance(e, ast.UnaryOp) and isinstance(e.op, ast.Not):
+        x = _canon_bool(e.operand)
+        if isinstance(x, ast.UnaryOp) and isinstance(x.op, ast.Not):
+            return x.operand
+        if isinstance(x, ast.Compare) and len(x.ops) == 1 and type(x.ops[0]) in inv:
+            return ast.Compare(left=x.left, ops=[inv[type(x.ops[0])]()], comparators=x.comparators)
+        if isinstance(x, ast.BoolOp):
+            return ast.BoolOp(op=ast.Or() if isinstance(x.op, ast.And) else ast.And(), values=[_canon_bool(ast.UnaryOp(op=ast.Not(), operand=v)) for v in x.values])
+        return ast.UnaryOp(op=ast.Not(), operand=x)
+    if isinstance(e, ast.BoolOp):
+        return ast.BoolOp(op=e.op, values=[_canon_bool(v) for v in e.values])
+    return e
+
+
+def _bool_helper_condition(pm: ParserModel, e: ast.AST) -> Optional[str]:
+    """For `self.<helper>(args)` where the helper is a chain of `if C: return <bool>` guards, plain local definitions and
+    a final `return E`: the condition under which it returns a true value, written over the caller's arguments."""
+    import copy as _copy
+    if not (isinstance(e, ast.Call) and isinstance(e.func, ast.Attribute) and isinstance(e.func.value, ast.Name) and e.func.value.id in ("self", "CxxParser") and e.func.attr in pm.methods) or e.keywords:
+        return None
+    fn = pm.methods[e.func.attr]
+    params = [a.arg for a in fn.args.args if a.arg not in ("self", "cls")]
+    if len(params) != len(e.args):
+        return None
+    env: Dict[str, ast.AST] = {p_: a_ for p_, a_ in zip(params, e.args)}
+
+    class Sub(ast.NodeTransformer):
+        def visit_Name(s_, n: ast.Name):
+            if isinstance(n.ctx, ast.Load) and n.id in env:
+                return _copy.deepcopy(env[n.id])
+            return n
+    prefix: List[ast.AST] = []
+    disj: List[ast.AST] = []
+    for st in fn.body:
+        if isinstance(st, ast.Expr) and isinstance(st.value, ast.Constant):
+            continue
+        if isinstance(st, ast.Assign) and len(st.targets) == 1 and isinstance(st.targets[0], ast.Name) and not any(isinstance(c, ast.Call) and not (isinstance(c.func, ast.Name) and c.func.id in ("len", "isinstance", "getattr")) for c in ast.walk(st.value)):
+            env[st.targets[0].id] = Sub().visit(_copy.deepcopy(st.value))
+            continue
+        if isinstance(st, ast.If) and not st.orelse and len(st.body) == 1 and isinstance(st.body[0], ast.Return) and isinstance(st.body[0].value, ast.Constant) and isinstance(st.body[0].value.value, bool):
+            c = Sub().visit(_copy.deepcopy(st.test))
+            if st.body[0].value.value:
+                disj.append(ast.BoolOp(op=ast.And(), values=prefix + [c]) if prefix else c)
+            prefix = prefix + [ast.UnaryOp(op=ast.Not(), operand=c)]
+            continue
+        if isinstance(st, ast.Return) and st.value is not None:
+            c = Sub().visit(_copy.deepcopy(st.value))
+            disj.append(ast.BoolOp(op=ast.And(), values=prefix + [c]) if prefix else c)
+            break
+        return None
+    if not disj:
+        return None
+    whole = disj[0] if len(disj) == 1 else ast.BoolOp(op=ast.Or(), values=disj)
+    return norm(ast.fix_missing_locations(_canon_bool(whole)))
